@@ -382,6 +382,22 @@ def run(ck):
                         n_const += 1
                         ck.ob('R9.4', 'attribute|%s' % name['v'], name['v'] in attrs_ok, L.loc(t),
                               'in the Designer attribute vocabulary' if name['v'] in attrs_ok else 'attribute name "%s" not in vocabulary' % name['v'], fn=fn['path'])
+                    elif name.get('k') == 'Path' and H.binding_sites(fn).get(name.get('hid'), {}).get('kind') == 'param':
+                        # the name is a parameter of a helper: every caller must hand in a constant of the vocabulary
+                        pi = H.binding_sites(fn)[name['hid']]['index']
+                        callers = [(f2, c2) for f2 in L.fn_list for c2 in H.calls_in(f2['body']) if (H.callee(c2) or H.callee_decl(c2)) == fn['path']]
+                        if not callers:
+                            ck.ob('R9.4', 'data-dependent-attribute|%s|%s' % (short(fn['path']), pp(name, maxlen=40)), False, L.loc(t), 'attribute name is a parameter and no caller was found', fn=fn['path'])
+                        for f2, c2 in callers:
+                            a2 = H.call_args(c2)
+                            v2 = H.lit_value(a2[pi]) if pi < len(a2) else None
+                            if isinstance(v2, str):
+                                n_const += 1
+                                ck.ob('R9.4', 'attribute|%s' % v2, v2 in attrs_ok, L.loc(c2),
+                                      'in the Designer attribute vocabulary (handed to %s)' % fn['name'] if v2 in attrs_ok else 'attribute name "%s" not in vocabulary' % v2, fn=f2['path'])
+                            else:
+                                ck.ob('R9.4', 'data-dependent-attribute|%s|%s' % (short(f2['path']), pp(a2[pi], maxlen=40) if pi < len(a2) else '?'), False, L.loc(c2),
+                                      'attribute name handed to %s is not a constant' % fn['name'], fn=f2['path'])
                     else:
                         key = (short(fn['path']), pp(name, maxlen=40))
                         ok = key in dyn_ok
